@@ -12,7 +12,7 @@ structure FSnap where
   deriving Repr
 
 inductive Outcome where
-  | exit (code : Nat) (out : Str) (errPaths : List Str) (inexact : Bool) (unordered : Bool)
+  | exit (code : Nat) (out : Str) (errPaths : List Str) (inexact : Bool) (ties : List Nat)
   | unsupported (why : String)
   deriving Repr
 
@@ -78,20 +78,19 @@ def searchRoots (p : Plan) (fs : FSnap) : List Root → WSt → Except Abort WSt
 /-- `exec_search` -/
 def execSearch (fs : FSnap) (cfg : Config) (args : List Str) : Outcome :=
   match parseQuery args with
-  | .error (.msg _) => .exit 2 [] [ofS "query"] false false
+  | .error (.msg _) => .exit 2 [] [ofS "query"] false []
   | .error (.unsupported w) => .unsupported w
   | .ok q =>
     let p := Plan.of q cfg
     let st0 : WSt := { out := fmtHeader q.format }
     match searchRoots p fs q.roots st0 with
-    | .error (.exit2 _ out) => .exit 2 out [] false false
+    | .error (.exit2 _ out) => .exit 2 out [] false []
     | .error (.unsupported w) => .unsupported w
     | .ok st =>
-      let unordered := q.hasAggregateColumn && !q.grouping.isEmpty && q.ordering.isEmpty
       match finish p st with
-      | .error (.exit2 _ out) => .exit 2 out st.errPaths false false
+      | .error (.exit2 _ out) => .exit 2 out st.errPaths false []
       | .error (.unsupported w) => .unsupported w
-      | .ok (out, inex) => .exit (if st.errCount > 0 then 1 else 0) out st.errPaths inex unordered
+      | .ok (out, inex, ties) => .exit (if st.errCount > 0 then 1 else 0) out st.errPaths inex ties
 
 /-- `main`: only plain queries are modelled (no `help`/`version`/`-i`/`-c`/`nocolor` pre-processing) -/
 def runMain (fs : FSnap) (cfg : Config) (argv : List Str) : Outcome :=
